@@ -209,16 +209,33 @@ impl BlobStore for PlainBlobStore {
         let id = self.next_record_id();
         let path = self.file_path(id);
 
-        let mut file = File::create(&path).map_err(|e| {
-            ZiporaError::io_error(format!("Failed to create blob file {:?}: {}", path, e))
-        })?;
+        // Write the record under a temporary name that no scan mistakes for a record
+        // (it does not parse as an id), flush it, then rename it into place: a crash
+        // during put leaves either no record `id` or the complete one, never a torn one.
+        let tmp_path = self.base_dir.join(format!(".{}.tmp", id));
 
-        file.write_all(data).map_err(|e| {
-            ZiporaError::io_error(format!("Failed to write blob file {:?}: {}", path, e))
-        })?;
+        let write_tmp = || -> Result<()> {
+            let mut file = File::create(&tmp_path).map_err(|e| {
+                ZiporaError::io_error(format!("Failed to create blob file {:?}: {}", tmp_path, e))
+            })?;
 
-        file.sync_all().map_err(|e| {
-            ZiporaError::io_error(format!("Failed to sync blob file {:?}: {}", path, e))
+            file.write_all(data).map_err(|e| {
+                ZiporaError::io_error(format!("Failed to write blob file {:?}: {}", tmp_path, e))
+            })?;
+
+            file.sync_all().map_err(|e| {
+                ZiporaError::io_error(format!("Failed to sync blob file {:?}: {}", tmp_path, e))
+            })?;
+            Ok(())
+        };
+        if let Err(e) = write_tmp() {
+            let _ = fs::remove_file(&tmp_path);
+            return Err(e);
+        }
+
+        fs::rename(&tmp_path, &path).map_err(|e| {
+            let _ = fs::remove_file(&tmp_path);
+            ZiporaError::io_error(format!("Failed to publish blob file {:?}: {}", path, e))
         })?;
 
         self.stats.record_put(data.len());
